@@ -109,10 +109,43 @@ def is_fcs_term(t, P=None):
     return fcs_fold_source(t, P) is not None or fcs_helper(P, t[1])
 
 
+def is_input_slice(t, depth=0):
+    """the input buffer, or a local that only ever holds a sub-slice of it (`let mut rest = &buffer[4..]; rest = &rest[1..]`) - the
+    decoder's cursor variable, whatever it is called"""
+    t = strip_refs(t)
+    while t[0] == "deref":
+        t = strip_refs(t[1])
+    if "buffer" in (path_str(t) or ""):
+        return True
+    tb = _CUR.get("data_tb")
+    if t[0] == "local" and depth < 4 and tb is not None:
+        ds = tb.defs.get(t[1], ())
+        if not ds:
+            return False
+        for d in ds:
+            dv = tb.rvalue(tb.fn.blocks[d[1]].stmts[d[2]]["rv"]) if d[0] == "stmt" else tb.call_term(tb.fn.blocks[d[1]].term["call"])
+            dv = strip_refs(dv)
+            while dv[0] == "deref":
+                dv = strip_refs(dv[1])
+            if dv[0] == "call" and dv[1].startswith("core::slice::index::<impl std::ops::Index") and len(dv[2]) == 2 \
+                    and strip_refs(dv[2][1])[0] == "agg" and str(strip_refs(dv[2][1])[1]).startswith("std::ops::Range"):
+                x_ = strip_refs(dv[2][0])
+                while x_[0] == "deref":
+                    x_ = strip_refs(x_[1])
+                if x_[0] == "local" and x_[1] == t[1]:
+                    continue  # re-slicing itself (`rest = &rest[1..]`)
+                if not is_input_slice(dv[2][0], depth + 1):
+                    return False
+            elif not is_input_slice(dv, depth + 1) or dv[0] == "local" and dv[1] == t[1]:
+                return False
+        return True
+    return False
+
+
 def is_buf_elem(t, idx_pred=None):
     """element read of the input buffer: index(<buffer>, i) / cidx"""
     t = strip_casts(strip_refs(t))
-    if t[0] == "index" and "buffer" in (path_str(t[1]) or ""):
+    if t[0] == "index" and is_input_slice(t[1]):
         return idx_pred is None or idx_pred(strip_casts(t[2]))
     return False
 
@@ -143,7 +176,16 @@ def length_local(P):
     return res
 
 
-_CUR = {"P": None}
+_CUR = {"P": None, "data_tb": None}
+
+
+def _set_data_tb(P):
+    try:
+        f = P.fn(CR, "fdl::telegram::DataTelegram::deserialize")
+        if _CUR.get("data_tb") is None or _CUR["data_tb"].fn is not f:
+            _CUR["data_tb"] = TermBuilder(f, P)
+    except KeyError:
+        _CUR["data_tb"] = None
 
 
 def is_length(t):
@@ -200,6 +242,7 @@ def check(ctx):
 
 def check_totality(ctx, P):
     _CUR["P"] = P
+    _set_data_tb(P)
     """clauses a.totality / a.length (also used by C05 for the decoder part of poll())"""
     fns = []
     for n in DECODERS:
@@ -278,6 +321,7 @@ def check_totality(ctx, P):
 
 def check_accept_and_verdicts(ctx, P, tele, data, token):
     _CUR["P"] = P
+    _set_data_tb(P)
     # ---------------- b: acceptance guards -----------------------------------------------------
     g = GuardAnalysis(data, P)
     tb = g.tb
@@ -373,6 +417,7 @@ def discharge_panic_call(ctx, P, f, b, c, tele):
 
 def check_checksum_range(ctx, P, data, tb):
     _CUR["P"] = P
+    _set_data_tb(P)
     n = 0
     for b, c in call_sites(data, lambda c: "fold" in (c.get("callee") or "") or fcs_helper(P, c.get("callee") or "")):
         t = tb.joperand(c["args"][0])
@@ -423,6 +468,7 @@ _P = [None]
 
 def closed_world(ctx, P, tele, data, token):
     _CUR["P"] = P
+    _set_data_tb(P)
     _P[0] = P
     nnone = nerr = 0
     # ---- Telegram::deserialize
